@@ -207,7 +207,7 @@ func (m *MdatBox) ReadData(start, size int64, rs io.ReadSeeker) ([]byte, error) 
 
 	// validate if indexes are valid to avoid panics
 	dataLen := m.DataLength()
-	if offsetInMdatData >= dataLen || endIndexInMdatData >= dataLen {
+	if offsetInMdatData >= dataLen || endIndexInMdatData > dataLen {
 		return nil, fmt.Errorf("normal mdat mode - invalid range provided")
 	}
 	if len(m.DataParts) > 0 {
@@ -240,7 +240,7 @@ func (m *MdatBox) CopyData(start, size int64, rs io.ReadSeeker, w io.Writer) (nr
 
 	// validate if indexes are valid to avoid panics
 	dataLen := m.DataLength()
-	if offsetInMdatData >= dataLen || endIndexInMdatData >= dataLen {
+	if offsetInMdatData >= dataLen || endIndexInMdatData > dataLen {
 		return 0, fmt.Errorf("normal mdat mode - invalid range provided")
 	}
 	if len(m.DataParts) > 0 {
